@@ -102,3 +102,70 @@ Definition chk_impl_prepass (p : xnode * option (Z * list (nat * akey * N))) : b
   | (_, OOk s), Some (_, t) => negb (any_short_cycle (apply_table t s))
   | _, _ => true
   end.
+
+(* ---- extension round 4: the frame clause of the pre-pass.  `on_short_cycle_b d id k`: the reference held by
+   attribute k of element id lies on a cycle of length <= 2 of d (guard-free boolean test; Proofs/LinksFrame.v
+   proves that it holds of everything the Prop version `on_short_cycle` holds of) ---- *)
+Definition on_link_cycle_b (e : tagk) (k : akey) (d : snode) (id : nat) : bool :=
+  existsb (fun node =>
+    tag_eqb (s_tag node) e &&
+    existsb (fun child =>
+      match node_attr d k child with
+      | Some link =>
+          (Nat.eqb (s_id child) id && Nat.eqb (s_id link) (s_id node)) ||
+          existsb (fun n2 => match node_attr d k n2 with
+                             | Some l2 => Nat.eqb (s_id l2) (s_id node) && Nat.eqb (s_id n2) id
+                             | None => false end) (sflat link)
+      | None => false
+      end) (sflat node)) (sflat d).
+
+Definition on_pattern_cycle_b (k : akey) (d : snode) (id : nat) : bool :=
+  existsb (fun p =>
+    tag_eqb (s_tag p) TPattern &&
+    existsb (fun node =>
+      match attr_link k (s_attrs node) with
+      | Some lid =>
+          (Nat.eqb (s_id node) id && optN_eqb (Some lid) (s_name p)) ||
+          match lookup d lid with
+          | Some ln => existsb (fun n2 => match attr_link k (s_attrs n2) with
+                                          | Some l2 => optN_eqb (Some l2) (s_name p) && Nat.eqb (s_id n2) id
+                                          | None => false end) (sflat ln)
+          | None => false
+          end
+      | None => false
+      end) (sflat p)) (sflat d).
+
+Definition on_feimage_cycle_b (d : snode) (id : nat) : bool :=
+  existsb (fun p =>
+    existsb (fun fe =>
+      tag_eqb (s_tag fe) TFeImage &&
+      match node_attr d AHref fe with
+      | Some link =>
+          match attr_link AFilter (s_attrs link) with
+          | Some u => optN_eqb (Some u) (s_name p) && Nat.eqb (s_id link) id
+          | None => false
+          end
+      | None => false
+      end) (s_kids p)) (sflat d).
+
+Definition on_short_cycle_b (d : snode) (id : nat) (k : akey) : bool :=
+  match k with
+  | AFill => on_pattern_cycle_b AFill d id
+  | AStroke => on_pattern_cycle_b AStroke d id
+  | AClip => on_link_cycle_b TClipPath AClip d id
+  | AMask => on_link_cycle_b TMask AMask d id
+  | AFilter => on_link_cycle_b TFilter AFilter d id || on_feimage_cycle_b d id
+  | _ => false
+  end.
+
+(* the IMPLEMENTATION's pre-pass removes nothing but references on a short cycle of the tree it was given, and
+   adds nothing (independent of the model's pre-pass; true = fine) *)
+Definition chk_impl_frame (p : xnode * option (Z * list (nat * akey * N))) : bool :=
+  match build (fst p), snd p with
+  | (_, OOk s), Some (_, t) =>
+      let t0 := link_table s in
+      forallb (fun e => existsb (entry_eqb e) t0) t &&
+      forallb (fun e => existsb (entry_eqb e) t ||
+                        match e with (id, k, _) => on_short_cycle_b s id k end) t0
+  | _, _ => true
+  end.
